@@ -34,12 +34,13 @@ type TCPConn struct {
 }
 
 type TCPFault struct {
-	Kind     string `json:"kind"` // host-add host-remove host-replace backend-down backend-up probe-fail probe-ok stop drain
-	Node     int    `json:"node,omitempty"`
-	Nodes    []int  `json:"nodes,omitempty"`
-	After    int    `json:"after_steps,omitempty"` // steps after the first client connected
-	AtMs     int    `json:"at_ms,omitempty"`
-	AsBackup bool   `json:"as_backup,omitempty"`
+	Kind       string `json:"kind"` // host-add host-remove host-replace backend-down backend-up probe-fail probe-ok stop drain
+	Node       int    `json:"node,omitempty"`
+	Nodes      []int  `json:"nodes,omitempty"`
+	After      int    `json:"after_steps,omitempty"` // steps after the first client connected
+	AtMs       int    `json:"at_ms,omitempty"`
+	AsBackup   bool   `json:"as_backup,omitempty"`
+	AfterStart int    `json:"after_start,omitempty"` // >= 1: AfterStart-1 steps after Start() returned
 }
 
 type TCPScenario struct {
@@ -230,6 +231,7 @@ type tcpWorld struct {
 	members                       map[int]bool // reference model: current endpoint set (by backend index)
 	memberHistory                 []memberEvent
 	onServerConn                  func(w *tcpWorld, p *peer, b *world.Backend)
+	startedStep                   int64
 }
 
 type memberEvent struct {
@@ -239,7 +241,7 @@ type memberEvent struct {
 
 func newTCPWorld(sc *TCPScenario) *tcpWorld {
 	return &tcpWorld{sc: sc, byHeader: map[string]*peer{}, fired: make([]bool, len(sc.Faults)), faultSteps: make([]int64, len(sc.Faults)),
-		firstConn: -1, faultsFired: map[string]int{}, members: map[int]bool{}}
+		firstConn: -1, faultsFired: map[string]int{}, members: map[int]bool{}, startedStep: -1}
 }
 
 func (w *tcpWorld) Setup(rt *simhook.Runtime) {
@@ -436,8 +438,11 @@ func (w *tcpWorld) fireFaults() {
 			}
 		default:
 			due = w.firstConn >= 0 && w.rt.Step-w.firstConn >= int64(f.After)
-			if f.After < 0 {
-				due = w.env.StartTask != nil && w.rt.Step >= int64(-f.After) // negative: absolute step since start
+			if f.AfterStart > 0 {
+				if w.env.Started && w.startedStep < 0 {
+					w.startedStep = w.rt.Step
+				}
+				due = w.startedStep >= 0 && w.rt.Step-w.startedStep >= int64(f.AfterStart-1)
 			}
 		}
 		if !due {
